@@ -1,0 +1,50 @@
+//go:build verif
+// +build verif
+
+package exec
+
+import "sync/atomic"
+
+// VerifMachineState is a copy of the manager-owned state of a machine.
+type VerifMachineState struct {
+	Addr         string
+	TaskProcs    int
+	MaxTaskProcs int
+	Health       string // ok | probation | lost
+}
+
+// VerifManagerSnapshot is a consistent copy of a machineManager's state,
+// taken inside the manager's own goroutine at the top of its loop.
+type VerifManagerSnapshot struct {
+	Manager   *machineManager
+	Machines  []VerifMachineState // managed machines: ok first, then on probation
+	QueueLen  int
+	Need      int
+	Pending   int
+	MaxP      int
+	MachProcs int
+}
+
+var verifManagerObserver atomic.Value // func(VerifManagerSnapshot)
+
+// VerifSetManagerObserver registers f to receive a snapshot at every
+// iteration of every machineManager's loop. f runs in the manager's
+// goroutine and must not block.
+func VerifSetManagerObserver(f func(VerifManagerSnapshot)) {
+	verifManagerObserver.Store(f)
+}
+
+func verifManagerLoop(m *machineManager, machQ *machineQ, probation *machineFailureQ, need, pending int) {
+	f, _ := verifManagerObserver.Load().(func(VerifManagerSnapshot))
+	if f == nil {
+		return
+	}
+	snap := VerifManagerSnapshot{Manager: m, QueueLen: len(m.schedQ), Need: need, Pending: pending, MaxP: m.maxp, MachProcs: m.machprocs}
+	for _, mach := range *machQ {
+		snap.Machines = append(snap.Machines, VerifMachineState{mach.Addr, mach.taskProcs, mach.maxTaskProcs, "ok"})
+	}
+	for _, mach := range *probation {
+		snap.Machines = append(snap.Machines, VerifMachineState{mach.Addr, mach.taskProcs, mach.maxTaskProcs, "probation"})
+	}
+	f(snap)
+}
